@@ -287,8 +287,13 @@ def install(rec):
                     rec.check("scheme", "cap", worst <= max(max_bond, 1), mech=f"{entry}:bond_above_cap",
                               detail=dict(detail, worst=worst, key=repr(key)), sig=sig)
                 if exact:
+                    suffix = f"{entry}:env_plus_complement_differs"
+                    if kind == "plaq" and k.get("equalize_norms"):
+                        # its own mechanism (known finding): exponents of the row /
+                        # column environments lost when the plaquette one is cut out
+                        suffix += ":with_equalize_norms"
                     compare(rec, "environment", "consistent", s["p"], whole, tol, dict(detail, key=repr(key)), sig,
-                            mechsuffix=f"{entry}:env_plus_complement_differs")
+                            mechsuffix=suffix)
                 else:
                     rec.count("environment", "consistent", "truncating")
         return attach.monitored(rec, entry, pre, post, fam="env")
@@ -457,6 +462,10 @@ def wl_env2d(rng, rec, tier):
     if layer_tags and rng.random() < 0.5:
         kw["layer_tags"] = layer_tags
     what = gen.choice(rng, ["x", "y", "plaq", "plaq"])
+    if rng.random() < 0.3:
+        kw["equalize_norms"] = gen.choice(rng, [True, 1.0])
+    if what in ("x", "y") and rng.random() < 0.25:
+        kw["dense"] = True
     if what == "x":
         gen.attempt(tn.compute_x_environments, **kw)
     elif what == "y":
@@ -496,6 +505,27 @@ def wl_3d(rng, rec, tier):
         if rng.random() < 0.3:
             kw["mode"] = gen.choice(rng, ["peps", "projector", "l2bp"])
         gen.attempt(tn.contract_boundary, **kw)
+        if rng.random() < 0.4:
+            # one explicit step from one side, plain (not in-place) spelling: the
+            # partially contracted network is handed back and denotes the same value
+            fw = gen.choice(rng, ["xmin", "xmax", "ymin", "ymax", "zmin", "zmax"])
+            L_ = {"x": Lx, "y": Ly, "z": Lz}[fw[0]]
+            if L_ >= 2:
+                rg = {"xrange": (0, Lx - 1), "yrange": (0, Ly - 1), "zrange": (0, Lz - 1)}
+                rg[fw[0] + "range"] = (0, 1) if fw.endswith("min") else (L_ - 2, L_ - 1)
+                p0 = value_of(tn)
+                res = gen.attempt2(tn.contract_boundary_from, from_which=fw, max_bond=exact, cutoff=0.0,
+                                   **({"mode": kw["mode"] + "3d" if kw.get("mode") in ("projector", "l2bp") else kw["mode"]}
+                                      if "mode" in kw else {}), **rg)
+                if res is not gen.REJECTED and p0 is not None:
+                    if not hasattr(res, "tensor_map"):
+                        rec.check("scheme", "exact", False, mech="scheme:TensorNetwork3D.contract_boundary_from:nothing_returned",
+                                  detail={"from_which": fw, "type": type(res).__name__}, sig=("3dfrom", fw[0], "ret"))
+                    else:
+                        compare(rec, "scheme", "exact", p0, res, 1e-6,
+                                {"from_which": fw, "dims": [Lx, Ly, Lz], "mode": kw.get("mode", "default")},
+                                ("3dfrom", fw[0], kw.get("mode", "default")),
+                                mechsuffix=f"TensorNetwork3D.contract_boundary_from:untruncated_value:{kw.get('mode', 'default')}")
     else:
         gen.attempt(tn.contract_hotrg, **kw)
     return {"dims": [Lx, Ly, Lz], "what": what, "kw": {k: v for k, v in kw.items()}}
